@@ -650,3 +650,245 @@ def check_symbolic_qubits_left_alone(ctx, rep, rule: str):
                 rep.violation(rule, cons, f"`{ast.unparse(c)}` is applied to every qubit, including `r[0]` / `q[i]` inside a macro body where r or i is a parameter: fill_in_map (and parse with expand_let_map=True) raises 'Unbound identifier' on a legal program", loc, witness="register q[2]\\nmacro foo i { Px q[i] }\\nfoo 0")
     if n == 0:
         raise AnalysisError(f"{rule}: MapFiller.visit_NamedQubit / resolve_qubit() site vanished")
+
+
+def check_zero_trip(ctx, rep, rule, exclude=()):
+    """A visitor whose `while` loop waits for its handlers to advance the walk (see the rule text)."""
+    from ..cfg import iter_stmts
+    ix, T = ctx.ix, ctx.typer
+    EXCLUDE = exclude
+    rep.rule(rule, "a visitor whose `while` loop waits for its handlers to advance the walk: a handler that delegates inside `for .. in range(n)` treats n <= 0 explicitly (a zero-trip loop advances nothing and the waiting loop never ends)", floor=1)
+    n15 = 0
+    for cq, ci in ix.classes.items():
+        if not T.is_visitor(cq) or any(cq.startswith(m) for m in EXCLUDE):
+            continue
+        waits = []
+        for mname, fi in ci.methods.items():
+            for st in iter_stmts(fi.body):
+                if isinstance(st, ast.While) and any(isinstance(c, ast.Call) and isinstance(c.func, ast.Attribute) and c.func.attr == "visit" for c in ast.walk(st)):
+                    # the condition is visitor state (self.<attr>)
+                    if any(isinstance(m, ast.Attribute) and isinstance(m.value, ast.Name) and m.value.id == fi.params[0] for m in ast.walk(st.test)):
+                        waits.append((fi, st))
+        if not waits:
+            continue
+        for mname, fi in ci.methods.items():
+            if not mname.startswith("visit_"):
+                continue
+            for st in iter_stmts(fi.body):
+                if not (isinstance(st, ast.For) and isinstance(st.iter, ast.Call) and isinstance(st.iter.func, ast.Name) and st.iter.func.id == "range" and st.iter.args):
+                    continue
+                if not any(isinstance(c, ast.Call) and isinstance(c.func, ast.Attribute) and c.func.attr == "visit" for c in ast.walk(st)):
+                    continue
+                n15 += 1
+                count = ast.unparse(st.iter.args[-1] if len(st.iter.args) == 1 else st.iter.args[1])
+                cons = construct_of(fi, f"zero-trip:{count}")
+                loc = f"{fi.path}:{st.lineno}"
+                guard = None
+                for g in iter_stmts(fi.body):
+                    if isinstance(g, ast.If) and g.lineno < st.lineno:
+                        for c in ast.walk(g.test):
+                            if isinstance(c, ast.Compare) and len(c.ops) == 1:
+                                l, r = ast.unparse(c.left), ast.unparse(c.comparators[0])
+                                if (l == count and r in ("0", "1") and isinstance(c.ops[0], (ast.LtE, ast.Lt, ast.Eq))) or (r == count and l in ("0", "1") and isinstance(c.ops[0], (ast.GtE, ast.Gt, ast.Eq))):
+                                    guard = g
+                            if isinstance(c, ast.UnaryOp) and isinstance(c.op, ast.Not) and ast.unparse(c.operand) == count:
+                                guard = g
+                if guard is not None:
+                    rep.ok(rule, cons, f"`{ast.unparse(guard.test)}` handles the zero-trip case before the loop", loc)
+                else:
+                    w = waits[0]
+                    rep.violation(rule, cons, f"`{ast.unparse(st.iter)}` may run zero times; then nothing advances the state that `while {ast.unparse(w[1].test)}` in {w[0].name} waits on, and execution never returns", loc, witness="register q[1]\nloop 0 { prepare_all; Px q[0]; measure_all }\nprepare_all\nmeasure_all")
+    rep.analysed["zero_trip_sites"] = n15
+
+
+
+# ---------------------------------------------------------------------- names are not identities
+SCOPE_MODULES = ("jaqalpaq.core.register", "jaqalpaq.core.algorithm.fill_in_let", "jaqalpaq.core.algorithm.fill_in_map",
+                 "jaqalpaq.core.algorithm.used_qubit_visitor", "jaqalpaq.core.algorithm.expand_macros", "jaqalpaq.core.algorithm.walkers",
+                 "jaqalpaq.core.parameter", "jaqalpaq.core.constant", "jaqalpaq.emulator.unitary")
+
+
+def check_scope_discipline(ctx, rep, r1: str, r2: str, r3: str):
+    """The same name denotes different things in different scopes (a macro parameter shadows a register, an alias
+    or a let constant), so resolved objects are never looked up, memoised or re-serialised by their bare name."""
+    from ..fieldflow import FuncFlow
+    from ..cfg import iter_stmts
+
+    ix, T = ctx.ix, ctx.typer
+    funcs = [f for f in ix.functions.values() if f.module in SCOPE_MODULES and not isinstance(f.node, ast.Lambda)]
+    if len(funcs) < 40:
+        raise AnalysisError(f"{r1}: only {len(funcs)} functions in the resolution/pass modules (anchor vanished)")
+    PARAM = "jaqalpaq.core.parameter.Parameter"
+    ANNV = "jaqalpaq.core.parameter.AnnotatedValue"
+    ix.cls(PARAM)
+
+    # ---------------- R1
+    rep.rule(r1, "the resolution context is consulted by name only for macro parameters: inside AnnotatedValue.resolve_value (which Constant overrides to ignore it) or under an isinstance(.., Parameter) test; everything else goes through resolve_value", floor=2)
+    n1 = 0
+    for f in funcs:
+        ctxnames = {p for p in f.params if p in ("context", "macro_context")}
+        par_q = f.parent
+        while par_q:  # closures see the enclosing function's context
+            pf = ix.functions.get(par_q)
+            if pf is None:
+                break
+            ctxnames |= {p for p in pf.params if p in ("context", "macro_context")}
+            par_q = pf.parent
+        if not ctxnames:
+            continue
+        fl = None
+        for n in walk_no_nested(f.node):
+            key = None
+            if isinstance(n, ast.Subscript) and isinstance(n.ctx, ast.Load) and isinstance(n.value, ast.Name) and n.value.id in ctxnames:
+                key = n.slice
+            elif isinstance(n, ast.Call) and isinstance(n.func, ast.Attribute) and n.func.attr in ("get", "pop") and isinstance(n.func.value, ast.Name) and n.func.value.id in ctxnames and n.args:
+                key = n.args[0]
+            elif isinstance(n, ast.Compare) and len(n.ops) == 1 and isinstance(n.ops[0], (ast.In, ast.NotIn)) and isinstance(n.comparators[0], ast.Name) and n.comparators[0].id in ctxnames:
+                key = n.left
+            if key is None:
+                continue
+            n1 += 1
+            cons = construct_of(f, f"context-lookup:{ast.unparse(key)[:30]}")
+            loc = f"{f.path}:{n.lineno}"
+            if f.cls in (ANNV, PARAM) and f.name == "resolve_value":
+                # Constant must override it
+                const_over = any(ix.classes[c].methods.get("resolve_value") is not None for c in ix.subclasses(ANNV) if c.endswith(".Constant"))
+                if const_over:
+                    rep.ok(r1, cons, "the parameter lookup itself; Constant.resolve_value overrides it and ignores the context", loc)
+                else:
+                    rep.violation(r1, cons, "Constant no longer overrides resolve_value: a let constant is looked up in the macro scope like a parameter", loc)
+                continue
+            if fl is None:
+                fl = FuncFlow(ix, T, f)
+            tests = list(fl.control_tests(n))
+            node = n
+            while node is not None and not isinstance(node, ast.stmt):
+                par = fl.parent.get(id(node))
+                if isinstance(par, ast.BoolOp) and isinstance(par.op, ast.And):
+                    i = next((k for k, v in enumerate(par.values) if v is node), 0)
+                    tests += par.values[:i]
+                node = par
+            guarded = any(isinstance(m, ast.Call) and isinstance(m.func, ast.Name) and m.func.id == "isinstance" and len(m.args) == 2 and ast.unparse(m.args[1]).split(".")[-1] == "Parameter"
+                          for t in tests for m in ast.walk(t))
+            if guarded:
+                rep.ok(r1, cons, "under an isinstance(.., Parameter) test", loc)
+            else:
+                rep.violation(r1, cons, f"`{ast.unparse(n)}` looks a name up in the resolution context without knowing that it names a macro parameter: a let constant (or register) of the same name as a parameter of the enclosing macro is resolved to the parameter's argument", loc)
+    rep.analysed["context_lookups"] = n1
+
+    # ---------------- R2
+    rep.rule(r2, "no pass keeps a table keyed by the bare name of the qubit/register reference it was handed (the same name is a register at top level and a parameter inside a macro)", floor=1)
+    n2 = 0
+    for f in funcs:
+        if not (f.cls and T.is_visitor(f.cls) and f.name.startswith("visit_") and len(f.params) >= 2):
+            continue
+        if f.name not in ("visit_NamedQubit", "visit_Register"):
+            continue
+        x = f.params[1]
+        n2 += 1
+        bad = None
+        for n in walk_no_nested(f.node):
+            key = cont = None
+            if isinstance(n, ast.Subscript) and not isinstance(n.slice, ast.Slice):
+                key, cont = n.slice, n.value
+            elif isinstance(n, ast.Call) and isinstance(n.func, ast.Attribute) and n.func.attr in ("get", "pop", "setdefault") and n.args:
+                key, cont = n.args[0], n.func.value
+            elif isinstance(n, ast.Compare) and len(n.ops) == 1 and isinstance(n.ops[0], (ast.In, ast.NotIn)):
+                key, cont = n.left, n.comparators[0]
+            if key is None:
+                continue
+            if isinstance(key, ast.Attribute) and key.attr in ("name", "_name") and isinstance(key.value, ast.Name) and key.value.id == x:
+                # a table owned by the visitor (self.<attr>) or a local: not the override dictionary (keyed by let names by definition)
+                if isinstance(cont, ast.Attribute) and cont.attr in ("override_dict",):
+                    continue
+                bad = n
+        cons = construct_of(f, "table-keyed-by-reference-name")
+        if bad is not None:
+            rep.violation(r2, cons, f"`{ast.unparse(bad)}` is keyed by the name of the reference being visited: `hi[0]` at top level (an alias) and `hi[0]` inside `macro flip hi {{..}}` (a parameter) share the entry, so one is rewritten to the other's qubit", f"{f.path}:{bad.lineno}")
+        else:
+            rep.ok(r2, cons, "no table keyed by the visited reference's name", f.loc())
+    if n2 == 0:
+        raise AnalysisError(f"{r2}: no visit_NamedQubit/visit_Register handlers found")
+
+    # ---------------- R3
+    rep.rule(r3, "a re-serialising pass hands the builder the resolved qubit/register object, never an S-expression spelled with its name (names are resolved again in the scope of the statement)", floor=1)
+    n3 = 0
+    for f in funcs:
+        if not (f.cls and T.is_visitor(f.cls) and f.name in ("visit_NamedQubit", "visit_Register")) or f.module not in ("jaqalpaq.core.algorithm.fill_in_let", "jaqalpaq.core.algorithm.fill_in_map"):
+            continue
+        n3 += 1
+        bad = None
+        for st in iter_stmts(f.body):
+            if isinstance(st, ast.Return) and st.value is not None:
+                vals = [st.value]
+                if isinstance(st.value, ast.Name):
+                    vals += [s_.value for s_ in iter_stmts(f.body) if isinstance(s_, ast.Assign) and any(isinstance(t, ast.Name) and t.id == st.value.id for t in s_.targets)]
+                for v in vals:
+                    if isinstance(v, (ast.Tuple, ast.List)) and any(isinstance(m, ast.Attribute) and m.attr in ("name", "_name") for m in ast.walk(v)):
+                        bad = st
+        cons = construct_of(f, "returns-resolved-object")
+        if bad is not None:
+            rep.violation(r3, cons, f"`{ast.unparse(bad)}` spells the resolved object by name; the builder resolves that name again where the statement stands, so inside `macro foo q {{ .. }}` the fundamental register q is captured by the parameter q", f"{f.path}:{bad.lineno}")
+        else:
+            rep.ok(r3, cons, "returns objects (or the input), not name-bearing S-expressions", f.loc())
+    if n3 == 0:
+        raise AnalysisError(f"{r3}: no qubit/register handlers in the re-serialising passes")
+
+
+# ---------------------------------------------------------------------- cached functions returning mutable objects
+_CACHE_DECOS = {"lru_cache", "cache", "cached_property", "memoize", "memoized"}
+_ALLOC_CALLS = {"empty", "zeros", "ones", "array", "full", "eye", "identity", "empty_like", "zeros_like", "list", "dict", "set", "bytearray", "defaultdict", "deque", "OrderedDict"}
+
+
+def _cached_mutable_hits(tree) -> list:
+    out = []
+    for fn in ast.walk(tree):
+        if not isinstance(fn, (ast.FunctionDef, ast.AsyncFunctionDef)):
+            continue
+        decos = set()
+        for d in fn.decorator_list:
+            x = d.func if isinstance(d, ast.Call) else d
+            decos.add(x.id if isinstance(x, ast.Name) else x.attr if isinstance(x, ast.Attribute) else "")
+        if not (decos & _CACHE_DECOS):
+            continue
+        for n in ast.walk(fn):
+            if isinstance(n, ast.Return) and n.value is not None:
+                vals = n.value.elts if isinstance(n.value, (ast.Tuple, ast.List)) else [n.value]
+                if isinstance(n.value, ast.List):
+                    out.append((fn, n))
+                    continue
+                for v in vals:
+                    if isinstance(v, (ast.List, ast.Dict, ast.Set, ast.ListComp, ast.DictComp, ast.SetComp)):
+                        out.append((fn, n))
+                    elif isinstance(v, ast.Call):
+                        nm = v.func.id if isinstance(v.func, ast.Name) else v.func.attr if isinstance(v.func, ast.Attribute) else ""
+                        if nm in _ALLOC_CALLS:
+                            out.append((fn, n))
+    return out
+
+
+def check_cached_mutables(ctx, rep, rule: str, modules):
+    """A memoised function hands every caller the *same* object: if that object is a mutable buffer, results already
+    reported (state vectors, probability tables) are overwritten by later calls."""
+    ix = ctx.ix
+    rep.rule(rule, "no memoised (lru_cache/cache) function returns a freshly allocated mutable object: every caller would share and overwrite one buffer", floor=1)
+    # positive control
+    ctl = ast.parse("from functools import lru_cache\n@lru_cache(maxsize=None)\ndef _w(n):\n    return (numpy.empty(n), numpy.empty(n))\n")
+    if not _cached_mutable_hits(ctl):
+        raise AnalysisError(f"{rule}: positive control not flagged")
+    rep.ok(rule, "embedded:cached-workspace", "positive control: a cached function returning numpy.empty(..) buffers is flagged")
+    n = 0
+    for path, text in ctx.sources.items():
+        mod = path[len("src/"):-3].replace("/", ".") if path.startswith("src/") else path
+        if not any(mod == m or mod.startswith(m + ".") for m in modules):
+            continue
+        n += 1
+        try:
+            tree = ast.parse(text)
+        except SyntaxError:
+            continue
+        for fn, ret in _cached_mutable_hits(tree):
+            rep.violation(rule, f"{short(mod)}:{fn.name}:cached-mutable", f"`{fn.name}` is memoised and `{ast.unparse(ret)}` returns mutable buffers: every subcircuit emulated with the same dimension writes into the vectors already handed out, so the state vector reported for an earlier subcircuit (or an earlier run) changes", f"{path}:{ret.lineno}")
+    if n == 0:
+        raise AnalysisError(f"{rule}: no module of {modules} found")
+    rep.analysed["cached_mutable_modules_scanned"] = n
